@@ -47,9 +47,10 @@ def run(L, rep, tier, seed):
             ds = [hexdigit(ctx) for _ in range(n)]
             data = K(b'POST /a HTTP/1.1\r\nTransfer-Encoding: chunked\r\n\r\n') + ds + CRLF + [ctx.fresh_bv('b', 8) for _ in range(2)]
         elif shape == 'te-qvalues':
-            q = [b'nan', b'NaN', b'inf', b'-inf', b'1e400', b'-1'][ctx.choose(6, 'q')]
+            q = [b'=nan', b'=NaN', b'=inf', b'=-inf', b'=1e400', b'=-1', b'', b'=', b'x'][ctx.choose(9, 'q')]
             k = 3
-            te = b', '.join([b'a;q=' + q, b'chunked;q=0.7', b'identity;q=' + (q if ctx.choose(2, 'two') else b'0.5')])
+            qn = [b'q', b'Q'][ctx.choose(2, 'qname')]
+            te = b', '.join([b'a;' + qn + q, b'chunked;q=0.7', b'identity; ' + qn + (q if ctx.choose(2, 'two') else b'=0.5')])
             data = K(b'GET /a HTTP/1.1\r\nTE: ' + te + b'\r\n\r\n')
         else:
             nh = 24 if tier == 'quick' else 64
@@ -106,7 +107,7 @@ def run(L, rep, tier, seed):
 
     S.run('adversarial', h, witnesses=SHAPES, max_paths=60000,
           bound='shapes %s: 8+6 arbitrary head bytes; Content-Length of 1/4/10/19/20 symbolic digits with 2 body bytes then EOF; chunk size of '
-                '1/8/16/17 symbolic hex digits; TE q-values nan/inf/-inf/1e400/-1; %d headers; handlers %s' % (SHAPES, 24 if tier == 'quick' else 64, HANDLERS))
+                '1/8/16/17 symbolic hex digits; TE parameters q/Q with values nan/inf/-inf/1e400/-1/empty or without the equals sign; %d headers; handlers %s' % (SHAPES, 24 if tier == 'quick' else 64, HANDLERS))
 
     def known(label, sc):
         if label.endswith('equal-reader-discard'):
